@@ -4,7 +4,7 @@ import numpy as np
 import gen
 from common import Driver, f2b, b2f
 
-REGEN = ("constants", "registry", "layoutsrc")
+REGEN = ("constants", "registry", "layoutsrc", "utilssrc")
 
 COORD_TOL = 1e-4     # one epoch: model (float32 rounding at stores) vs kernel (fastmath float32)
 TRAJ_TOL = 2e-3      # several epochs
